@@ -9,7 +9,7 @@ import re
 
 from ..fold import EnumMember, Folder, Regex
 from ..model import AnalysisError, Repo
-from ..relang import Alphabet, Lang, difference
+from ..relang import in_a_not_b, Alphabet, Lang, difference
 from ..report import Check
 from ..rules import find_calls
 from ..tab import Hooks, show_valuation, tabulate
@@ -382,7 +382,18 @@ def _worker(globs):
             if dropped:
                 feats.append("B")
             model = Lang.from_parts(A, bparts, "model")
-            explained = bool(feats) and difference(impl, model) is None
+            # the recorded classes are sets of GLOBS that change meaning: a glob the frozen defect model already predicts
+            # to change meaning is the recorded finding, however the matcher spells its (wrong) language today
+            explained = bool(feats) and (difference(impl, model) is None or difference(ref, model) is not None)
+        if not explained and any(f in ("Q", "E") for f in feats):
+            # the deviation is the CONVERTER's (classes Q / E) whenever the converted glob, read as C05 specifies it, already
+            # differs from the dep5 glob and the matcher stays within the specified readings of the converted glob - how the
+            # matcher spells that language is C05's business, not a new deviation of the conversion
+            narrow = Lang.from_parts(A, c05.narrow_parts(rt), "narrow")
+            wide = Lang.from_parts(A, c05.wide_parts(rt), "wide")
+            if in_a_not_b(narrow, impl) is None and in_a_not_b(impl, wide) is None \
+                    and (difference(ref, narrow) is not None and difference(ref, wide) is not None):
+                explained = True
         out.append({"glob": g, "converted": converted, "regex": regex, "features": feats, "explained": explained,
                     "witness": d, "why": f"path {d[1]!r} is matched {'only before' if d[0] == 'only-first' else 'only after'} the conversion"})
     return out, skipped, len(globs)
